@@ -14,6 +14,7 @@ case "$1" in
   C03) run python3-vt checks/c03.py ;;
   C04) run python3-vt checks/lookup.py C04 ;;
   C05) run python3-vt checks/c05.py ;;
+  C06) run python3-vt checks/c06.py ;;
   C07) run python3-vt checks/c07.py ;;
   C09) run python3-vt checks/c09.py ;;
   C10) run python3-vt checks/c10.py ;;
